@@ -246,10 +246,13 @@ def tabulate_experiments(block: Optional[Block] = None,
         proportion_list = list()
         levels: List[List[str]] = list()
 
+        # The default (all trials) is per experiment: experiments can differ in length.
         if trials is None:
-            trials = list(range(0, len(e[list(e.keys())[0]])))
+            exp_trials = list(range(0, len(e[list(e.keys())[0]])))
+        else:
+            exp_trials = trials
 
-        num_trials = len(trials)
+        num_trials = len(exp_trials)
 
         # initialize table
         for f in factors:
@@ -271,7 +274,7 @@ def tabulate_experiments(block: Optional[Block] = None,
 
             # compute frequency
             frequency = 0
-            for trial in trials:
+            for trial in exp_trials:
                 valid_condition = True
                 for idx, factor in enumerate(tabulation.keys()):
                     if e[factor][trial] != element[idx]:
@@ -280,7 +283,7 @@ def tabulate_experiments(block: Optional[Block] = None,
                 if valid_condition:
                     frequency += 1
 
-            proportion = frequency / num_trials
+            proportion = frequency / num_trials if num_trials > 0 else 0
 
             frequency_list.append(str(frequency))
             proportion_list.append(str(proportion * 100) + '%')
@@ -298,14 +301,14 @@ def tabulate_experiments(block: Optional[Block] = None,
         design.append(proportion_factor)
 
         # print tabulation
-        nested_assignment_strs = [list(map(lambda l: cast(str, f.name) + " " + l.name, f.levels)) for f
+        nested_assignment_strs = [list(map(lambda l: cast(str, f.name) + " " + str(l.name), f.levels)) for f
                                   in design]
         column_widths = list(map(lambda l: max(list(map(len, l))), nested_assignment_strs))
 
         format_str = reduce(lambda a, b: a + '{{:<{}}} | '.format(b), column_widths, '')[:-3] + '\n'
 
         print('Experiment {}:'.format(exp_idx))
-        strs = [list(map(lambda v: name + " " + v, values)) for (name, values) in tabulation.items()]
+        strs = [list(map(lambda v: name + " " + str(v), values)) for (name, values) in tabulation.items()]
         transposed = list(map(list, zip(*strs)))
         print(reduce(lambda a, b: a + format_str.format(*b), transposed, ''))
 
